@@ -485,6 +485,57 @@ func init() {
 			if !okIdent {
 				r.Fail(fl.Name()+":identity", fl.Decl.Pos(), nil, "the fetcher must store fetchBatch(<batch taken by Flush>) under the sequence number reserved for that batch")
 			}
+			// every reserved number is filled: after Reserve every path of flush reaches the goroutine that
+			// calls buffer.Add, and inside that goroutine every path calls buffer.Add (Drain stops at a gap forever)
+			var goLit *ast.FuncLit
+			ast.Inspect(fl.Decl.Body, func(nd ast.Node) bool {
+				if gs, ok := nd.(*ast.GoStmt); ok {
+					if lit, ok := gs.Call.Fun.(*ast.FuncLit); ok && r.exprCalls(fi, lit.Body, ad.Obj) {
+						goLit = lit
+					}
+				}
+				return true
+			})
+			if goLit == nil {
+				r.Fail(fl.Name()+":fill-goroutine", fl.Decl.Pos(), nil, "flush no longer starts a goroutine that stores the fetched batch in the reorder buffer")
+			} else {
+				spec := &pathsim.Spec{Step: func(c *pathsim.Ctx, s pathsim.State, ev *pathsim.Event) []pathsim.State {
+					switch ev.Kind {
+					case pathsim.EvCall:
+						if fn, _ := ev.Callee.(*types.Func); fn == reserveFn {
+							s.A = 1
+							return []pathsim.State{s}
+						}
+					case pathsim.EvFuncLit:
+						if ev.Lit == goLit && s.A == 1 {
+							s.A = 2
+							return []pathsim.State{s}
+						}
+					case pathsim.EvReturn, pathsim.EvExit:
+						if s.A == 1 {
+							c.Violate(ev.Pos, "[reserved-unfilled] flush can return after reserving a sequence number without starting the fetch that fills it: ReorderBuffer.Drain emits strictly in sequence and stops at that hole, so every later batch is fetched but never emitted")
+						}
+					}
+					return nil
+				}}
+				r.Sim(fl.Decl, fl.Name(), spec)
+				spec2 := &pathsim.Spec{Step: func(c *pathsim.Ctx, s pathsim.State, ev *pathsim.Event) []pathsim.State {
+					switch ev.Kind {
+					case pathsim.EvCall:
+						if fn, _ := ev.Callee.(*types.Func); fn == ad.Obj {
+							s.A = 1
+							return []pathsim.State{s}
+						}
+					case pathsim.EvReturn, pathsim.EvExit:
+						if s.A == 0 {
+							c.Violate(ev.Pos, "[fetch-unfilled] the fetch goroutine can end without storing a result under its reserved sequence number (e.g. on a fetch error): Drain would stop at that hole forever")
+						}
+					}
+					return nil
+				}}
+				r.Sim(goLit, fl.Name()+"$fetch", spec2)
+				r.Site(goLit.Pos(), "every reserved sequence number is filled")
+			}
 			// every drained result reaches Output, element by element
 			out := r.P.Field("batching", "ReorderFetcher", "Output")
 			drainFn := d.Obj
